@@ -164,7 +164,16 @@ def validate_shard(shard, idx, wdir, timeout, props):
     if "Model checking completed. No error has been found." not in out or dist != count + 1:
         raise ToolError("TLC did not consume shard %s (%d/%d states)\n%s" % (path, dist, count + 1, out[-3000:]))
     rejects = [int(m.group(1)) for m in REJECT_RE.finditer(out)]
-    return dict(path=path, base=base, count=count, rejects=rejects, states=dist, transitions=gen, wall=dt)
+    labels = {}
+    m = re.search(r'<<"LABELS", "(.*)">>', out)
+    if m:
+        try:
+            labels = json.loads(m.group(1).replace('\\"', '"'))
+        except Exception:
+            labels = {}
+        if not isinstance(labels, dict):          # the empty function is rendered as an empty array
+            labels = {}
+    return dict(path=path, base=base, count=count, rejects=rejects, states=dist, transitions=gen, wall=dt, labels=labels)
 
 
 def validate_trace(path, wdir, tag, props, par=6, timeout=1800):
@@ -291,6 +300,7 @@ def check_r2(prop, tier, seed, spec):
 
     outcome_counts = {}
     rec_env = {}
+    input_classes = {}
     crashes = []
     if "pre" in spec:
         # scenario generation from the specification (R3): TLC enumerates/simulates the state machine
@@ -310,6 +320,8 @@ def check_r2(prop, tier, seed, spec):
         totals["shards"] += len(res)
         rej_lines = []
         for r in res:
+            for k, v in r.get("labels", {}).items():
+                input_classes[k] = input_classes.get(k, 0) + v
             totals["states"] += r["states"]
             totals["transitions"] += r["transitions"]
             rej_lines += [r["base"] + i for i in r["rejects"]]
@@ -443,9 +455,16 @@ def check_r2(prop, tier, seed, spec):
         events_validated=totals["events"], evaluations=totals["events"], distinct_nontrivial=nontrivial,
         rule="every public call recorded by the harness (structured limbs, constructive families, exhaustive small parameters; two build profiles) is one trace event validated by TLC against the TLA+ contract; distinct = distinct (inputs, outcome) after removing the form label; non-trivial = " + NONTRIV_RULE,
         forms_exercised=len(forms), outcomes=outcome_counts, samples=samples, r1_models=r1_results,
+        input_classes=dict(sorted(input_classes.items())),
         rejected_events=len(violations) + sum(known.values()), known_findings_matched=known, path_coverage=path_cov, word_lemmas_at_W64=lemmas,
         exhaustive=False)
     write_evidence(prop, tier, seed, "model_checking", coverage, spec.get("assumptions", []), time.time() - t0, len(violations))
+    missing = [c for c in spec.get("required_classes", []) if input_classes.get(c, 0) == 0]
+    if input_classes:
+        log("[%s] input classes (tla/Labels.tla): %s" % (prop, ", ".join("%s=%d" % (k.split(".", 1)[1], v) for k, v in sorted(input_classes.items()))))
+    if missing and not violations:
+        # the recorder no longer produces a boundary class the contracts are meant to be evaluated on: vacuity, a tool error
+        raise ToolError("required input classes without a single recorded event: %s" % ", ".join(missing))
     if crashes:
         for c in crashes:
             log("[%s] NOTE: %s" % (prop, c.split("\n")[0][:300]))
